@@ -515,7 +515,9 @@ func registerLate(n int) {
 	for ; lateCount < n && lateCount < len(lateKinds); lateCount++ {
 		_ = g.Names()
 		_, _ = g.Filter(lint.FilterOptions{ExcludeNames: []string{"e_ca_country_name_missing"}})
-		md := lint.LintMetadata{Name: lateName(lateCount), Description: "late", Source: []lint.LintSource{lint.RFC6960, lint.RFC5280, lint.Community}[lateCount%3]}
+		// sources chosen so that kinds share a source that no certificate lint of a small view need have
+		// (an OCSP lint citing the BRs next to the BR CRL lints, a CRL lint citing RFC 6960 next to the OCSP lint)
+		md := lint.LintMetadata{Name: lateName(lateCount), Description: "late", Source: []lint.LintSource{lint.CABFBaselineRequirements, lint.RFC6960, lint.Community, lint.RFC5280, lint.AppleRootStorePolicy, lint.MozillaRootStorePolicy}[lateCount%6]}
 		switch lateKinds[lateCount] {
 		case "cert":
 			lint.RegisterCertificateLint(&lint.CertificateLint{LintMetadata: md, Lint: func() lint.CertificateLintInterface { return lateLint{} }})
